@@ -103,7 +103,12 @@ struct qmutex_s {
         pthread_mutex_unlock(&(((qmutex_t *)m)->mutex));                \
     } while(0)
 
+#if defined(QLIBC_VERIF) && defined(QLIBC_VERIF_MAX_MUTEX_LOCK_WAIT)
+/* verification hook: lets a bounded-model-checking harness shorten the spin */
+#define MAX_MUTEX_LOCK_WAIT (QLIBC_VERIF_MAX_MUTEX_LOCK_WAIT)
+#else
 #define MAX_MUTEX_LOCK_WAIT (5000)
+#endif
 #define Q_MUTEX_ENTER(m) do {                                           \
         if (m == NULL) break;                                           \
         while (true) {                                                  \
